@@ -258,9 +258,18 @@ theorem localNew_ok {s s' : State} {a : Nat} {nf : Bool} (h : localNew s a nf = 
   · cases h
   · rename_i hc; injection h with h; exact ⟨by simpa using hc, h.symm⟩
 
+/-- the native-key record after `p_uthread_local_free` -/
+def relN (x : NKey) : NKey :=
+  { x with live := x.live && !localFreeDeletesKey, blockFreed := x.blockFreed || localFreeFreesBlock }
+
 theorem localFree_ok {s s' : State} {a : Nat} {k : Nat} (h : localFree s a k = .ok s') :
     canAct s a ∧ k ≠ 0 ∧ k < s.nK ∧ (s.key k).wrapperFreed = false ∧
-    s' = { s with key := upd s.key k { s.key k with wrapperFreed := true } } := by
+    (((s.key k).published = none ∧ s' = { s with key := upd s.key k { s.key k with wrapperFreed := true } }) ∨
+     (∃ n, (s.key k).published = some n ∧ s' = { s with
+        nkey := upd s.nkey n (relN (s.nkey n))
+        keyDelLog := s.keyDelLog ++ (if localFreeDeletesKey then [n] else [])
+        blockFreeLog := s.blockFreeLog ++ (if localFreeFreesBlock then [n] else [])
+        key := upd s.key k { s.key k with wrapperFreed := true } })) := by
   unfold localFree at h
   split at h
   · cases h
@@ -268,7 +277,10 @@ theorem localFree_ok {s s' : State} {a : Nat} {k : Nat} (h : localFree s a k = .
     simp only [not_or, Decidable.not_not] at hg
     split at h
     · cases h
-    · rename_i hw; injection h with h; exact ⟨hg.1, hg.2.1, hg.2.2, by simpa using hw, h.symm⟩
+    · rename_i hw
+      split at h
+      · rename_i hp; injection h with h; exact ⟨hg.1, hg.2.1, hg.2.2, by simpa using hw, .inl ⟨hp, h.symm⟩⟩
+      · rename_i n hp; injection h with h; exact ⟨hg.1, hg.2.1, hg.2.2, by simpa using hw, .inr ⟨n, hp, h.symm⟩⟩
 
 theorem keyCreate_ok {s s' : State} {t : Nat} {k : Nat} (h : keyCreate s t k = .ok s') :
     ((s.thr t).phase = .running ∨ ((s.thr t).phase = .created ∧ k = 0)) ∧ (s.thr t).pend = none ∧ k < s.nK ∧
@@ -297,6 +309,8 @@ theorem keyCas_ok {s s' : State} {t : Nat} {k : Nat} (h : keyCas s t k = .ok s')
         thr := upd s.thr t { s.thr t with pend := none } }) ∨
      ((∃ m, (s.key k).published = some m) ∧ s' = { s with
         nkey := upd s.nkey n { s.nkey n with live := !casLoserDeletesKey, blockFreed := casLoserFreesBlock }
+        keyDelLog := s.keyDelLog ++ (if casLoserDeletesKey then [n] else [])
+        blockFreeLog := s.blockFreeLog ++ (if casLoserFreesBlock then [n] else [])
         key := upd s.key k { s.key k with losers := (s.key k).losers ++ [n] }
         thr := upd s.thr t { s.thr t with pend := none } })) := by
   unfold keyCas at h
@@ -364,7 +378,8 @@ structure KInv (s : State) : Prop where
   nB : ∀ n, s.nN ≤ n → s.nkey n = {} ∧ ∀ t, s.tls t n = 0
   tP : ∀ t, s.nT ≤ t → s.thr t = {}
   kP : ∀ k n, (s.key k).published = some n →
-        n < s.nN ∧ (s.nkey n).owner = k ∧ (s.nkey n).live = true ∧ (s.nkey n).blockFreed = false
+        n < s.nN ∧ (s.nkey n).owner = k ∧
+        ((s.key k).wrapperFreed = false → (s.nkey n).live = true ∧ (s.nkey n).blockFreed = false)
   kV : ∀ t n, s.tls t n ≠ 0 → (s.key (s.nkey n).owner).published = some n
   kD : ∀ n, n < s.nN → (s.nkey n).dtor = (s.key (s.nkey n).owner).notifier
   kO : ∀ n, n < s.nN → (s.nkey n).owner < s.nK
@@ -380,9 +395,12 @@ structure KInv (s : State) : Prop where
   kN : ∀ k, (s.key k).losers.Nodup
   /-- a loser exists only where somebody won -/
   kW : ∀ k n, n ∈ (s.key k).losers → ∃ w, (s.key k).published = some w
+  /-- `p_uthread_local_free` took the native key with it -/
+  kF : ∀ k n, (s.key k).wrapperFreed = true → (s.key k).published = some n →
+        (s.nkey n).live = false ∧ (s.nkey n).blockFreed = true
 
 theorem KInv.init : KInv init := by
-  refine ⟨?_, ?_, ?_, ?_, ?_, ?_, ?_, ?_, ?_, ?_, ?_, ?_, ?_⟩
+  refine ⟨?_, ?_, ?_, ?_, ?_, ?_, ?_, ?_, ?_, ?_, ?_, ?_, ?_, ?_⟩
   · intro k hk; have : k ≠ 0 := by simp [PV.UThread.init] at hk; omega
     simp [PV.UThread.init, this]
   · intro n _; simp [PV.UThread.init]
@@ -398,13 +416,14 @@ theorem KInv.init : KInv init := by
   · intro n hn; simp [PV.UThread.init] at hn
   · intro k; simp [PV.UThread.init]; split <;> simp
   · intro k n hl; simp [PV.UThread.init] at hl; split at hl <;> simp at hl
+  · intro k n hw; simp [PV.UThread.init] at hw; split at hw <;> simp at hw
 
 /-- events that leave keys and native keys alone, keep `pend`, and store only NULL or under a published key -/
 theorem KInv.frame {s s' : State} (h : KInv s) (e1 : s'.key = s.key) (e2 : s'.nkey = s.nkey)
     (e4 : s'.nN = s.nN) (e5 : s'.nK = s.nK) (e7 : ∀ t, s'.nT ≤ t → s'.thr t = {})
     (e6 : ∀ t, (s'.thr t).pend = (s.thr t).pend)
     (e3 : ∀ t n, s'.tls t n ≠ 0 → s.tls t n ≠ 0 ∨ (s.key (s.nkey n).owner).published = some n) : KInv s' := by
-  refine ⟨?_, ?_, ?_, ?_, ?_, ?_, ?_, ?_, ?_, ?_, ?_, ?_, ?_⟩
+  refine ⟨?_, ?_, ?_, ?_, ?_, ?_, ?_, ?_, ?_, ?_, ?_, ?_, ?_, ?_⟩
   · intro k hk; rw [e1]; exact h.kB k (e5 ▸ hk)
   · intro n hn
     rw [e2]
@@ -416,7 +435,7 @@ theorem KInv.frame {s s' : State} (h : KInv s) (e1 : s'.key = s.key) (e2 : s'.nk
     · have h2 : n < s.nN := (h.kP _ _ h1).1
       rw [e4] at hn; omega
   · exact e7
-  · intro k n hp; rw [e1] at hp; rw [e2, e4]; exact h.kP k n hp
+  · intro k n hp; rw [e1] at hp; rw [e1, e2, e4]; exact h.kP k n hp
   · intro t n hv
     rw [e1, e2]
     rcases e3 t n hv with h1 | h1
@@ -435,6 +454,7 @@ theorem KInv.frame {s s' : State} (h : KInv s) (e1 : s'.key = s.key) (e2 : s'.nk
     · exact .inr (.inr ⟨t, by rw [e6]; exact h1⟩)
   · intro k; rw [e1]; exact h.kN k
   · intro k n hl; rw [e1] at hl ⊢; exact h.kW k n hl
+  · intro k n hw hp; rw [e1] at hw hp; rw [e2]; exact h.kF k n hw hp
 
 theorem KInv.val_lt {s : State} (h : KInv s) {t n : Nat} (hv : s.tls t n ≠ 0) : n < s.nN := by
   apply Classical.byContradiction; intro hn; exact hv ((h.nB n (by omega)).2 t)
@@ -444,7 +464,7 @@ theorem KInv.localNew {s s' : State} {a : Nat} {nf : Bool} (h : KInv s) (hs : lo
   have own : ∀ n, n < s.nN → (s.nkey n).owner ≠ s.nK := fun n hn => Nat.ne_of_lt (h.kO n hn)
   have lt_of_val : ∀ t n, s.tls t n ≠ 0 → n < s.nN := fun t n hv => by
     apply Classical.byContradiction; intro hn; exact hv ((h.nB n (by omega)).2 t)
-  refine ⟨?_, ?_, ?_, ?_, ?_, ?_, ?_, ?_, ?_, ?_, ?_, ?_, ?_⟩
+  refine ⟨?_, ?_, ?_, ?_, ?_, ?_, ?_, ?_, ?_, ?_, ?_, ?_, ?_, ?_⟩
   · intro k hk; simp only at hk ⊢; rw [upd_ne _ _ (by omega)]; exact h.kB k (by omega)
   · exact h.nB
   · exact h.tP
@@ -452,7 +472,7 @@ theorem KInv.localNew {s s' : State} {a : Nat} {nf : Bool} (h : KInv s) (hs : lo
     simp only at hp ⊢
     by_cases hk : k = s.nK
     · subst hk; simp at hp
-    · rw [upd_ne _ _ hk] at hp; exact h.kP k n hp
+    · rw [upd_ne _ _ hk] at hp ⊢; exact h.kP k n hp
   · intro t n hv
     simp only at hv ⊢
     rw [upd_ne _ _ (own n (lt_of_val t n hv))]; exact h.kV t n hv
@@ -482,26 +502,88 @@ theorem KInv.localNew {s s' : State} {a : Nat} {nf : Bool} (h : KInv s) (hs : lo
     by_cases hk : k = s.nK
     · subst hk; simp at hl
     · rw [upd_ne _ _ hk] at hl ⊢; exact h.kW k n hl
+  · intro k n hw hp
+    simp only at hw hp ⊢
+    by_cases hk : k = s.nK
+    · subst hk; simp at hp
+    · rw [upd_ne _ _ hk] at hw hp; exact h.kF k n hw hp
 
 theorem KInv.localFree {s s' : State} {a k : Nat} (h : KInv s) (hs : localFree s a k = .ok s') : KInv s' := by
-  obtain ⟨_, _, _, _, rfl⟩ := localFree_ok hs
-  -- only `wrapperFreed` of key `k` changes
+  obtain ⟨_, _, hklt, hwf, hcase⟩ := localFree_ok hs
+  -- only `wrapperFreed` of key `k` changes in the wrappers
   have e : ∀ j, (upd s.key k { s.key k with wrapperFreed := true } j).published = (s.key j).published ∧
       (upd s.key k { s.key k with wrapperFreed := true } j).losers = (s.key j).losers ∧
       (upd s.key k { s.key k with wrapperFreed := true } j).notifier = (s.key j).notifier := by
     intro j; by_cases hj : j = k
     · subst hj; simp
     · simp [upd_ne _ _ hj]
-  refine ⟨?_, h.nB, h.tP, ?_, ?_, ?_, h.kO, ?_, h.kI, ?_, ?_, ?_, ?_⟩
-  · intro j hj; simp only at hj ⊢; rw [upd_ne _ _ (by omega)]; exact h.kB j hj
-  · intro j n hp; simp only at hp ⊢; rw [(e j).1] at hp; exact h.kP j n hp
-  · intro t n hv; simp only at hv ⊢; rw [(e _).1]; exact h.kV t n hv
-  · intro n hn; simp only at hn ⊢; rw [(e _).2.2]; exact h.kD n hn
-  · intro t j n hp; simp only at hp ⊢; rw [(e j).1, (e j).2.1]; exact h.kE t j n hp
-  · intro j n hl; simp only at hl ⊢; rw [(e j).2.1] at hl; rw [(e j).1]; exact h.kL j n hl
-  · intro n hn; simp only at hn ⊢; rw [(e _).1, (e _).2.1]; exact h.kC n hn
-  · intro j; simp only; rw [(e j).2.1]; exact h.kN j
-  · intro j n hl; simp only at hl ⊢; rw [(e j).2.1] at hl; rw [(e j).1]; exact h.kW j n hl
+  rcases hcase with ⟨hpub, rfl⟩ | ⟨n, hpub, rfl⟩
+  · refine ⟨?_, h.nB, h.tP, ?_, ?_, ?_, h.kO, ?_, h.kI, ?_, ?_, ?_, ?_, ?_⟩
+    · intro j hj; simp only at hj ⊢; rw [upd_ne _ _ (by omega)]; exact h.kB j hj
+    · intro j m hp; simp only at hp ⊢; rw [(e j).1] at hp
+      have := h.kP j m hp
+      refine ⟨this.1, this.2.1, ?_⟩
+      by_cases hj : j = k
+      · subst hj; rw [hpub] at hp; cases hp
+      · rw [upd_ne _ _ hj]; exact this.2.2
+    · intro t m hv; simp only at hv ⊢; rw [(e _).1]; exact h.kV t m hv
+    · intro m hm; simp only at hm ⊢; rw [(e _).2.2]; exact h.kD m hm
+    · intro t j m hp; simp only at hp ⊢; rw [(e j).1, (e j).2.1]; exact h.kE t j m hp
+    · intro j m hl; simp only at hl ⊢; rw [(e j).2.1] at hl; rw [(e j).1]; exact h.kL j m hl
+    · intro m hm; simp only at hm ⊢; rw [(e _).1, (e _).2.1]; exact h.kC m hm
+    · intro j; simp only; rw [(e j).2.1]; exact h.kN j
+    · intro j m hl; simp only at hl ⊢; rw [(e j).2.1] at hl; rw [(e j).1]; exact h.kW j m hl
+    · intro j m hw hp; simp only at hw hp ⊢; rw [(e j).1] at hp
+      by_cases hj : j = k
+      · subst hj; rw [hpub] at hp; cases hp
+      · rw [upd_ne _ _ hj] at hw; exact h.kF j m hw hp
+  · have hP := h.kP k n hpub
+    have hlive := hP.2.2 hwf
+    -- the native record of `n` keeps owner and destructor
+    have nkE : ∀ m, (upd s.nkey n (relN (s.nkey n)) m).owner = (s.nkey m).owner ∧
+        (upd s.nkey n (relN (s.nkey n)) m).dtor = (s.nkey m).dtor := by
+      intro m; by_cases hm : m = n
+      · subst hm; simp [relN]
+      · simp [upd_ne _ _ hm]
+    -- `n` is published by `k` only, is nobody's pending key and nobody's loser
+    have pub_ne : ∀ j m, j ≠ k → (s.key j).published = some m → m ≠ n := by
+      intro j m hj hp e'; subst e'
+      exact hj ((h.kP j m hp).2.1.symm.trans hP.2.1)
+    have pend_ne : ∀ t j m, (s.thr t).pend = some (j, m) → m ≠ n := by
+      intro t j m hp e'; subst e'
+      have := h.kE t j m hp
+      rw [hP.2.1] at this; exact this.2.2.2.2.1 (this.2.1 ▸ hpub)
+    have loser_ne : ∀ j m, m ∈ (s.key j).losers → m ≠ n := by
+      intro j m hl e'; subst e'
+      have := h.kL j m hl
+      rw [hP.2.1] at this; exact this.2.2.2.2 (this.2.1 ▸ hpub)
+    refine ⟨?_, ?_, h.tP, ?_, ?_, ?_, ?_, ?_, h.kI, ?_, ?_, ?_, ?_, ?_⟩
+    · intro j hj; simp only at hj ⊢; rw [upd_ne _ _ (by omega)]; exact h.kB j hj
+    · intro m hm; simp only at hm ⊢; rw [upd_ne _ _ (by omega)]; exact h.nB m hm
+    · intro j m hp; simp only at hp ⊢; rw [(e j).1] at hp
+      have := h.kP j m hp
+      rw [(nkE m).1]
+      refine ⟨this.1, this.2.1, ?_⟩
+      by_cases hj : j = k
+      · subst hj; simp
+      · rw [upd_ne _ _ hj, upd_ne _ _ (pub_ne j m hj hp)]; exact this.2.2
+    · intro t m hv; simp only at hv ⊢; rw [(nkE m).1, (e _).1]; exact h.kV t m hv
+    · intro m hm; simp only at hm ⊢; rw [(nkE m).1, (nkE m).2, (e _).2.2]; exact h.kD m hm
+    · intro m hm; simp only at hm ⊢; rw [(nkE m).1]; exact h.kO m hm
+    · intro t j m hp; simp only at hp ⊢
+      have := h.kE t j m hp
+      rw [upd_ne _ _ (pend_ne t j m hp), (e j).1, (e j).2.1]; exact this
+    · intro j m hl; simp only at hl ⊢; rw [(e j).2.1] at hl
+      rw [upd_ne _ _ (loser_ne j m hl), (e j).1]; exact h.kL j m hl
+    · intro m hm; simp only at hm ⊢; rw [(nkE m).1, (e _).1, (e _).2.1]; exact h.kC m hm
+    · intro j; simp only; rw [(e j).2.1]; exact h.kN j
+    · intro j m hl; simp only at hl ⊢; rw [(e j).2.1] at hl; rw [(e j).1]; exact h.kW j m hl
+    · intro j m hw hp; simp only at hw hp ⊢; rw [(e j).1] at hp
+      by_cases hj : j = k
+      · subst hj; rw [hpub] at hp; injection hp with hp; subst hp
+        simp [relN, localFreeDeletesKey, localFreeFreesBlock]
+      · rw [upd_ne _ _ hj] at hw
+        rw [upd_ne _ _ (pub_ne j m hj hp)]; exact h.kF j m hw hp
 
 theorem KInv.thr_lt {s : State} (h : KInv s) {t : Nat} (hp : (s.thr t).phase ≠ .absent) : t < s.nT := by
   apply Classical.byContradiction; intro hn
@@ -510,7 +592,11 @@ theorem KInv.thr_lt {s : State} (h : KInv s) {t : Nat} (hp : (s.thr t).phase ≠
 theorem KInv.keyCreate {s s' : State} {t k : Nat} (h : KInv s) (hs : keyCreate s t k = .ok s') : KInv s' := by
   obtain ⟨hph, hpd, hk, _, hpub, rfl⟩ := keyCreate_ok hs
   have ht : t < s.nT := h.thr_lt (by rcases hph with h1 | h1 <;> simp [h1])
-  refine ⟨h.kB, ?_, ?_, ?_, ?_, ?_, ?_, ?_, ?_, ?_, ?_, h.kN, h.kW⟩
+  refine ⟨h.kB, ?_, ?_, ?_, ?_, ?_, ?_, ?_, ?_, ?_, ?_, h.kN, h.kW, ?_⟩
+  rotate_right
+  · intro j n hw hp; simp only at hw hp ⊢
+    have := (h.kP j n hp).1
+    rw [upd_ne _ _ (by omega)]; exact h.kF j n hw hp
   · intro n hn; simp only at hn ⊢
     rw [upd_ne _ _ (by omega)]; exact h.nB n (by omega)
   · intro t' ht'; simp only at ht' ⊢
@@ -565,7 +651,7 @@ theorem KInv.thr_lt_of_pend {s : State} (h : KInv s) {t : Nat} {p : Nat × Nat} 
   have := h.tP t (by omega); rw [this] at hp; cases hp
 
 theorem KInv.keyCas {s s' : State} {t k : Nat} (h : KInv s) (hs : keyCas s t k = .ok s') : KInv s' := by
-  obtain ⟨n, hpd, _, hcase⟩ := keyCas_ok hs
+  obtain ⟨n, hpd, hwf, hcase⟩ := keyCas_ok hs
   have hE := h.kE t k n hpd
   have hk : k < s.nK := by have := h.kO n hE.1; rw [hE.2.1] at this; exact this
   have ht : t < s.nT := h.thr_lt_of_pend hpd
@@ -575,11 +661,18 @@ theorem KInv.keyCas {s s' : State} {t k : Nat} (h : KInv s) (hs : keyCas s t k =
   rcases hcase with ⟨hpub, rfl⟩ | ⟨⟨m0, hpub⟩, rfl⟩
   · -- winner
     have keyE : ∀ j, (upd s.key k { s.key k with published := some n } j).losers = (s.key j).losers ∧
-        (upd s.key k { s.key k with published := some n } j).notifier = (s.key j).notifier := by
+        (upd s.key k { s.key k with published := some n } j).notifier = (s.key j).notifier ∧
+        (upd s.key k { s.key k with published := some n } j).wrapperFreed = (s.key j).wrapperFreed := by
       intro j; by_cases hj : j = k
       · subst hj; simp
       · simp [upd_ne _ _ hj]
-    refine ⟨?_, h.nB, ?_, ?_, ?_, ?_, h.kO, ?_, ?_, ?_, ?_, ?_, ?_⟩
+    refine ⟨?_, h.nB, ?_, ?_, ?_, ?_, h.kO, ?_, ?_, ?_, ?_, ?_, ?_, ?_⟩
+    rotate_right
+    · intro j m hw hp; simp only at hw hp ⊢
+      rw [(keyE j).2.2] at hw
+      by_cases hj : j = k
+      · subst hj; rw [hwf] at hw; cases hw
+      · rw [upd_ne _ _ hj] at hp; exact h.kF j m hw hp
     rotate_right
     · intro j m hl; simp only at hl ⊢
       rw [(keyE j).1] at hl
@@ -590,13 +683,13 @@ theorem KInv.keyCas {s s' : State} {t k : Nat} (h : KInv s) (hs : keyCas s t k =
     · intro t' ht'; simp only at ht' ⊢; rw [upd_ne _ _ (by omega)]; exact h.tP t' ht'
     · intro j m hp; simp only at hp ⊢
       by_cases hj : j = k
-      · subst hj; simp at hp; subst hp; exact ⟨hE.1, hE.2.1, hE.2.2.1, hE.2.2.2.1⟩
-      · rw [upd_ne _ _ hj] at hp; exact h.kP j m hp
+      · subst hj; simp at hp; subst hp; exact ⟨hE.1, hE.2.1, fun _ => ⟨hE.2.2.1, hE.2.2.2.1⟩⟩
+      · rw [upd_ne _ _ hj] at hp ⊢; exact h.kP j m hp
     · intro t' m hv; simp only at hv ⊢
       have := h.kV t' m hv
       have hj : (s.nkey m).owner ≠ k := by intro e; rw [e, hpub] at this; cases this
       rw [upd_ne _ _ hj]; exact this
-    · intro m hm; simp only at hm ⊢; rw [(keyE _).2]; exact h.kD m hm
+    · intro m hm; simp only at hm ⊢; rw [(keyE _).2.1]; exact h.kD m hm
     · intro t' j m hp; simp only at hp ⊢
       by_cases htt : t' = t
       · subst htt; simp at hp
@@ -632,7 +725,8 @@ theorem KInv.keyCas {s s' : State} {t k : Nat} (h : KInv s) (hs : keyCas s t k =
     · intro j; simp only; rw [(keyE j).1]; exact h.kN j
   · -- loser
     have keyE : ∀ j, (upd s.key k { s.key k with losers := (s.key k).losers ++ [n] } j).published = (s.key j).published ∧
-        (upd s.key k { s.key k with losers := (s.key k).losers ++ [n] } j).notifier = (s.key j).notifier := by
+        (upd s.key k { s.key k with losers := (s.key k).losers ++ [n] } j).notifier = (s.key j).notifier ∧
+        (upd s.key k { s.key k with losers := (s.key k).losers ++ [n] } j).wrapperFreed = (s.key j).wrapperFreed := by
       intro j; by_cases hj : j = k
       · subst hj; simp
       · simp [upd_ne _ _ hj]
@@ -645,7 +739,11 @@ theorem KInv.keyCas {s s' : State} {t k : Nat} (h : KInv s) (hs : keyCas s t k =
     have hpn : ∀ j m, (s.key j).published = some m → m ≠ n := by
       intro j m hp e; subst e
       have := (h.kP j m hp).2.1; rw [hE.2.1] at this; subst this; exact hE.2.2.2.2.1 hp
-    refine ⟨?_, ?_, ?_, ?_, ?_, ?_, ?_, ?_, ?_, ?_, ?_, ?_, ?_⟩
+    refine ⟨?_, ?_, ?_, ?_, ?_, ?_, ?_, ?_, ?_, ?_, ?_, ?_, ?_, ?_⟩
+    rotate_right
+    · intro j m hw hp; simp only at hw hp ⊢
+      rw [(keyE j).2.2] at hw; rw [(keyE j).1] at hp
+      rw [upd_ne _ _ (hpn j m hp)]; exact h.kF j m hw hp
     rotate_right
     · intro j m hl; simp only at hl ⊢
       rw [(keyE j).1]
@@ -657,10 +755,10 @@ theorem KInv.keyCas {s s' : State} {t k : Nat} (h : KInv s) (hs : keyCas s t k =
     · intro t' ht'; simp only at ht' ⊢; rw [upd_ne _ _ (by omega)]; exact h.tP t' ht'
     · intro j m hp; simp only at hp ⊢
       rw [(keyE j).1] at hp
-      rw [upd_ne _ _ (hpn j m hp)]; exact h.kP j m hp
+      rw [upd_ne _ _ (hpn j m hp), (keyE j).2.2]; exact h.kP j m hp
     · intro t' m hv; simp only at hv ⊢
       rw [(nkE m).1, (keyE _).1]; exact h.kV t' m hv
-    · intro m hm; simp only at hm ⊢; rw [(nkE m).1, (nkE m).2, (keyE _).2]; exact h.kD m hm
+    · intro m hm; simp only at hm ⊢; rw [(nkE m).1, (nkE m).2, (keyE _).2.1]; exact h.kD m hm
     · intro m hm; simp only at hm ⊢; rw [(nkE m).1]; exact h.kO m hm
     · intro t' j m hp; simp only at hp ⊢
       by_cases htt : t' = t
@@ -1087,9 +1185,15 @@ theorem HInv.localNew_inv {s s' : State} {a : Nat} {nf : Bool} (hi : HInv s) (hs
   intro t n hp; refine ⟨?_, rfl⟩; simp only; rw [upd_ne _ _ (by omega)]; exact hp
 
 theorem HInv.localFree_inv {s s' : State} {a k : Nat} (hi : HInv s) (hs : localFree s a k = .ok s') : HInv s' := by
-  obtain ⟨_, hk, _, _, rfl⟩ := localFree_ok hs
-  refine hi.frame rfl rfl rfl rfl rfl (fun _ => ⟨rfl, rfl, rfl⟩) (Nat.le_refl _) ?_ (fun _ _ ho _ => ⟨ho, rfl⟩) hi.tT
-  intro t n hp; refine ⟨?_, rfl⟩; simp only; rw [upd_ne _ _ (Ne.symm hk)]; exact hp
+  obtain ⟨_, hk, _, _, ⟨_, rfl⟩ | ⟨n, _, rfl⟩⟩ := localFree_ok hs
+  · refine hi.frame rfl rfl rfl rfl rfl (fun _ => ⟨rfl, rfl, rfl⟩) (Nat.le_refl _) ?_ (fun _ _ ho _ => ⟨ho, rfl⟩) hi.tT
+    intro t n hp; refine ⟨?_, rfl⟩; simp only; rw [upd_ne _ _ (Ne.symm hk)]; exact hp
+  · refine hi.frame rfl rfl rfl rfl rfl (fun _ => ⟨rfl, rfl, rfl⟩) (Nat.le_refl _) ?_ ?_ hi.tT
+    · intro t m hp; refine ⟨?_, rfl⟩; simp only; rw [upd_ne _ _ (Ne.symm hk)]; exact hp
+    · intro t m ho _; simp only at ho
+      by_cases e : m = n
+      · subst e; simp [relN] at ho; exact ⟨ho, rfl⟩
+      · rw [upd_ne _ _ e] at ho; exact ⟨ho, rfl⟩
 
 theorem HInv.keyCreate_inv {s s' : State} {t k : Nat} (hi : HInv s) (hk : KInv s) (hs : keyCreate s t k = .ok s') : HInv s' := by
   obtain ⟨_, _, _, _, _, rfl⟩ := keyCreate_ok hs
@@ -1781,7 +1885,7 @@ theorem FInv.step {s s' : State} {e : Ev} (hf : FInv s) (hi : HInv s) (hk : KInv
     · exact FInvH.upd hf _ _ (by simp [hfr])
   | current t => obtain ⟨n, _, _, _, rfl⟩ := current_ok hs; exact currentCore_FInv hf t n
   | localNew a n => obtain ⟨_, rfl⟩ := localNew_ok hs; exact hf
-  | localFree a k => obtain ⟨_, _, _, _, rfl⟩ := localFree_ok hs; exact hf
+  | localFree a k => obtain ⟨_, _, _, _, ⟨_, rfl⟩ | ⟨n, _, rfl⟩⟩ := localFree_ok hs <;> exact hf
   | keyCreate t k => obtain ⟨_, _, _, _, _, rfl⟩ := keyCreate_ok hs; exact hf
   | keyCas t k => obtain ⟨n, _, _, ⟨_, rfl⟩ | ⟨_, rfl⟩⟩ := keyCas_ok hs <;> exact hf
   | setLocal t k v => obtain ⟨n, _, _, _, _, _, rfl⟩ := setLocal_ok hs; exact hf
@@ -1944,7 +2048,9 @@ theorem step_no_uaf {s : State} {e : Ev} (hf : FInv s) (hi : HInv s) (hk : KInv 
     simp only [step, localFree] at hs
     split at hs
     · cases hs
-    · split at hs <;> cases hs
+    · split at hs
+      · cases hs
+      · split at hs <;> cases hs
   | keyCreate t k =>
     simp only [step, keyCreate] at hs
     split at hs
@@ -2089,18 +2195,24 @@ theorem valueOf_pub {s : State} {t k n : Nat} (hp : (s.key k).published = some n
 /-- `destructor_exactly_once`, thread end: the notifier calls made by `threadEnd t` -/
 theorem threadEnd_dtor {s s' : State} {t : Nat} (hk : KInv s) (hs : threadEnd s t = .ok s') :
     ∃ L, s'.dtorLog = s.dtorLog ++ L ∧ L.Nodup ∧
-      (∀ t' k v, (t', k, v) ∈ L ↔ t' = t ∧ (s.key k).notifier = true ∧ v ≠ 0 ∧ valueOf s t k = v) ∧
-      (∀ k, (s.key k).notifier = true → valueOf s' t k = 0) := by
+      (∀ t' k v, (t', k, v) ∈ L ↔
+        t' = t ∧ (s.key k).notifier = true ∧ (s.key k).wrapperFreed = false ∧ v ≠ 0 ∧ valueOf s t k = v) ∧
+      (∀ k, (s.key k).notifier = true → (s.key k).wrapperFreed = false → valueOf s' t k = 0) := by
   obtain ⟨_, s1, hr, rfl⟩ := threadEnd_ok hs
   obtain ⟨a1, a2, a3, a4, a5, a6⟩ := runDtors_frame (List.nodup_range) hr
   -- a destructor is due exactly for the published native key of a key with a notifier and a non-NULL value
-  have due_iff : ∀ n, dtorDue s t n ↔ s.tls t n ≠ 0 ∧ (s.key (s.nkey n).owner).notifier = true := by
+  have due_iff : ∀ n, dtorDue s t n ↔ s.tls t n ≠ 0 ∧ (s.key (s.nkey n).owner).notifier = true ∧
+      (s.key (s.nkey n).owner).wrapperFreed = false := by
     intro n; unfold dtorDue
     constructor
-    · rintro ⟨_, h2, h3⟩; exact ⟨h3, by rw [← hk.kD n (hk.val_lt h3)]; exact h2⟩
-    · rintro ⟨h3, h2⟩
+    · rintro ⟨h1, h2, h3⟩
+      refine ⟨h3, by rw [← hk.kD n (hk.val_lt h3)]; exact h2, ?_⟩
+      cases hw : (s.key (s.nkey n).owner).wrapperFreed with
+      | false => rfl
+      | true => have := (hk.kF _ n hw (hk.kV t n h3)).1; rw [h1] at this; cases this
+    · rintro ⟨h3, h2, hw⟩
       have hp := hk.kV t n h3
-      exact ⟨(hk.kP _ _ hp).2.2.1, by rw [hk.kD n (hk.val_lt h3)]; exact h2, h3⟩
+      exact ⟨((hk.kP _ _ hp).2.2 hw).1, by rw [hk.kD n (hk.val_lt h3)]; exact h2, h3⟩
   refine ⟨(List.range s.nN).filterMap (owed s t), a6, ?_, ?_, ?_⟩
   · refine nodup_filterMap List.nodup_range ?_
     intro a b c _ _ ha hb
@@ -2127,17 +2239,17 @@ theorem threadEnd_dtor {s s' : State} {t : Nat} (hk : KInv s) (hs : threadEnd s 
         have hd := (due_iff n).mp d
         have hp := hk.kV t n hd.1
         subst e1 e2 e3
-        exact ⟨rfl, hd.2, hd.1, valueOf_pub hp⟩
+        exact ⟨rfl, hd.2.1, hd.2.2, hd.1, valueOf_pub hp⟩
       · cases ho
-    · rintro ⟨rfl, hn, hv, hval⟩
+    · rintro ⟨rfl, hn, hwf, hv, hval⟩
       cases hp : (s.key k).published with
       | none => simp [valueOf, hp] at hval; exact absurd hval.symm hv
       | some n =>
         rw [valueOf_pub hp] at hval
         have hown := (hk.kP k n hp).2.1
-        have d : dtorDue s t' n := (due_iff n).mpr ⟨by rw [hval]; exact hv, by rw [hown]; exact hn⟩
+        have d : dtorDue s t' n := (due_iff n).mpr ⟨by rw [hval]; exact hv, by rw [hown]; exact hn, by rw [hown]; exact hwf⟩
         exact ⟨n, List.mem_range.mpr (hk.kP k n hp).1, by simp [owed, d, hown, hval]⟩
-  · intro k hn
+  · intro k hn hwf
     simp only [valueOf]
     rw [a2]
     cases hp : (s.key k).published with
@@ -2148,7 +2260,7 @@ theorem threadEnd_dtor {s s' : State} {t : Nat} (hk : KInv s) (hs : threadEnd s 
       by_cases hv : s.tls t n = 0
       · simp [hv]
       · have hown := (hk.kP k n hp).2.1
-        have d : dtorDue s t n := (due_iff n).mpr ⟨hv, by rw [hown]; exact hn⟩
+        have d : dtorDue s t n := (due_iff n).mpr ⟨hv, by rw [hown]; exact hn, by rw [hown]; exact hwf⟩
         simp [d, List.mem_range, (hk.kP k n hp).1]
 
 /-! ## TLS cells at the level of `PUThreadKey`s -/
@@ -2239,11 +2351,12 @@ theorem valueOf_frame {s s' : State} {e : Ev} (hk : KInv s) (hs : step s e = .ok
     · subst e; have := hk.kB s.nK (Nat.le_refl _); simp [this]
     · rw [upd_ne _ _ e]
   | localFree a k' =>
-    obtain ⟨_, _, _, _, rfl⟩ := localFree_ok hs
-    simp only [valueOf]
-    by_cases e : k = k'
-    · subst e; simp
-    · rw [upd_ne _ _ e]
+    obtain ⟨_, _, _, _, ⟨_, rfl⟩ | ⟨n, _, rfl⟩⟩ := localFree_ok hs
+    all_goals
+      simp only [valueOf]
+      by_cases e : k = k'
+      · subst e; simp
+      · rw [upd_ne _ _ e]
   | keyCreate t' k' => obtain ⟨_, _, _, _, _, rfl⟩ := keyCreate_ok hs; rfl
   | keyCas t' k' =>
     obtain ⟨n, hpd, _, ⟨hpub, rfl⟩ | ⟨_, rfl⟩⟩ := keyCas_ok hs
@@ -2288,7 +2401,7 @@ theorem dtorLog_frame {s s' : State} {e : Ev} (hs : step s e = .ok s')
   | join a h => obtain ⟨_, _, _, _, ⟨_, rfl⟩ | ⟨_, _, _, rfl⟩⟩ := join_ok hs <;> rfl
   | current t' => obtain ⟨n0, _, _, hp0, rfl⟩ := current_ok hs; exact (currentCore_frameK s t' n0).2.1
   | localNew a nf => obtain ⟨_, rfl⟩ := localNew_ok hs; rfl
-  | localFree a k' => obtain ⟨_, _, _, _, rfl⟩ := localFree_ok hs; rfl
+  | localFree a k' => obtain ⟨_, _, _, _, ⟨_, rfl⟩ | ⟨n, _, rfl⟩⟩ := localFree_ok hs <;> rfl
   | keyCreate t' k' => obtain ⟨_, _, _, _, _, rfl⟩ := keyCreate_ok hs; rfl
   | keyCas t' k' => obtain ⟨n, hpd, _, ⟨hpub, rfl⟩ | ⟨_, rfl⟩⟩ := keyCas_ok hs <;> rfl
   | setLocal t' k' v => exact absurd rfl (h3 t' k' v)
@@ -2366,7 +2479,7 @@ theorem freeLog_frame {s s' : State} {e : Ev} (hs : step s e = .ok s')
   | join a h => obtain ⟨_, _, _, _, ⟨_, rfl⟩ | ⟨_, _, _, rfl⟩⟩ := join_ok hs <;> rfl
   | current t' => obtain ⟨n0, _, _, hp0, rfl⟩ := current_ok hs; exact (currentCore_frameK s t' n0).2.2.1
   | localNew a nf => obtain ⟨_, rfl⟩ := localNew_ok hs; rfl
-  | localFree a k' => obtain ⟨_, _, _, _, rfl⟩ := localFree_ok hs; rfl
+  | localFree a k' => obtain ⟨_, _, _, _, ⟨_, rfl⟩ | ⟨n, _, rfl⟩⟩ := localFree_ok hs <;> rfl
   | keyCreate t' k' => obtain ⟨_, _, _, _, _, rfl⟩ := keyCreate_ok hs; rfl
   | keyCas t' k' => obtain ⟨n, hpd, _, ⟨hpub, rfl⟩ | ⟨_, rfl⟩⟩ := keyCas_ok hs <;> rfl
   | setLocal t' k' v => obtain ⟨n, _, _, _, _, _, rfl⟩ := setLocal_ok hs; rfl
@@ -2398,5 +2511,121 @@ theorem DReach.run : ∀ {es : List Ev} {s s' : State}, DReach s → Disciplined
     · cases hs
     · rename_i s1 h1
       exact DReach.run (.step e hr hd.1 h1) (hd.2 s1 h1) hs
+
+/-! ## native keys are deleted, and their blocks freed, at most once -/
+
+structure NInv (s : State) : Prop where
+  dN : s.keyDelLog.Nodup
+  bN : s.blockFreeLog.Nodup
+  dL : ∀ n, n ∈ s.keyDelLog ↔ n < s.nN ∧ (s.nkey n).live = false
+  bL : ∀ n, n ∈ s.blockFreeLog ↔ n < s.nN ∧ (s.nkey n).blockFreed = true
+
+theorem NInv.init : NInv init := by
+  refine ⟨by simp [PV.UThread.init], by simp [PV.UThread.init], ?_, ?_⟩ <;> intro n <;> simp [PV.UThread.init]
+
+theorem NInv.frame {s s' : State} (h : NInv s) (e1 : s'.nkey = s.nkey) (e2 : s'.nN = s.nN)
+    (e3 : s'.keyDelLog = s.keyDelLog) (e4 : s'.blockFreeLog = s.blockFreeLog) : NInv s' :=
+  ⟨e3 ▸ h.dN, e4 ▸ h.bN, by rw [e1, e2, e3]; exact h.dL, by rw [e1, e2, e4]; exact h.bL⟩
+
+theorem nodup_snoc {l : List Nat} {n : Nat} (h : l.Nodup) (hn : n ∉ l) : (l ++ [n]).Nodup := by
+  refine List.nodup_append.mpr ⟨h, by simp, ?_⟩
+  intro a ha b hb; simp at hb; subst hb; intro e; subst e; exact hn ha
+
+/-- a live native key with its block is released: both logs grow by it, exactly once -/
+theorem NInv.release {s : State} (h : NInv s) {n : Nat} (hlt : n < s.nN) (hl : (s.nkey n).live = true) (hb : (s.nkey n).blockFreed = false)
+    (x : NKey) (hx1 : x.live = false) (hx2 : x.blockFreed = true) :
+    NInv { s with nkey := upd s.nkey n x, keyDelLog := s.keyDelLog ++ [n], blockFreeLog := s.blockFreeLog ++ [n] } := by
+  have n1 : n ∉ s.keyDelLog := by intro hm; have := ((h.dL n).mp hm).2; rw [hl] at this; cases this
+  have n2 : n ∉ s.blockFreeLog := by intro hm; have := ((h.bL n).mp hm).2; rw [hb] at this; cases this
+  refine ⟨nodup_snoc h.dN n1, nodup_snoc h.bN n2, ?_, ?_⟩
+  · intro m; simp only [List.mem_append, List.mem_singleton]
+    by_cases e : m = n
+    · subst e; simp [hx1, hlt]
+    · rw [upd_ne _ _ e]; simp [e]; exact h.dL m
+  · intro m; simp only [List.mem_append, List.mem_singleton]
+    by_cases e : m = n
+    · subst e; simp [hx2, hlt]
+    · rw [upd_ne _ _ e]; simp [e]; exact h.bL m
+
+theorem NInv.step {s s' : State} {e : Ev} (h : NInv s) (hk : KInv s) (hs : step s e = .ok s') : NInv s' := by
+  cases e with
+  | spawn => have := spawn_ok hs; subst this; exact h.frame rfl rfl rfl rfl
+  | createBegin a j n => obtain ⟨_, _, rfl⟩ := createBegin_ok hs; exact h.frame rfl rfl rfl rfl
+  | createEnd a => obtain ⟨c, _, _, rfl⟩ := createEnd_ok hs; exact h.frame rfl rfl rfl rfl
+  | start t' => obtain ⟨hd, n0, _, _, _, _, hp0, _, _, rfl⟩ := start_ok hs; exact h.frame rfl rfl rfl rfl
+  | exit t' c =>
+    obtain ⟨n0, _, _, hp0, _, hcase⟩ := exit_ok hs
+    have e1 : (currentCore s t' n0).1.nkey = s.nkey ∧ (currentCore s t' n0).1.nN = s.nN ∧
+        (currentCore s t' n0).1.keyDelLog = s.keyDelLog ∧ (currentCore s t' n0).1.blockFreeLog = s.blockFreeLog := by
+      unfold currentCore; split <;> exact ⟨rfl, rfl, rfl, rfl⟩
+    rcases hcase with ⟨_, rfl⟩ | ⟨_, rfl⟩ <;> exact h.frame e1.1 e1.2.1 e1.2.2.1 e1.2.2.2
+  | ret t' => obtain ⟨_, _, rfl⟩ := ret_ok hs; exact h.frame rfl rfl rfl rfl
+  | threadEnd t' =>
+    obtain ⟨_, s1, hr, rfl⟩ := threadEnd_ok hs
+    have : ∀ {l : List Nat} {s s1 : State}, runDtors t' s l = .ok s1 →
+        s1.nkey = s.nkey ∧ s1.nN = s.nN ∧ s1.keyDelLog = s.keyDelLog ∧ s1.blockFreeLog = s.blockFreeLog := by
+      intro l
+      induction l with
+      | nil => intro s s1 hs; unfold runDtors at hs; injection hs with hs; subst hs; exact ⟨rfl, rfl, rfl, rfl⟩
+      | cons n r ih =>
+        intro s s1 hs
+        obtain ⟨s2, h1, h2⟩ := runDtors_cons_ok hs
+        have a : s2.nkey = s.nkey ∧ s2.nN = s.nN ∧ s2.keyDelLog = s.keyDelLog ∧ s2.blockFreeLog = s.blockFreeLog := by
+          rcases dtorOne_ok h1 with ⟨_, rfl⟩ | ⟨_, _, rfl⟩ | ⟨_, _, hu⟩
+          · exact ⟨rfl, rfl, rfl, rfl⟩
+          · exact ⟨rfl, rfl, rfl, rfl⟩
+          · obtain ⟨_, ⟨_, rfl⟩ | ⟨_, rfl⟩⟩ := unrefCore_ok hu <;> exact ⟨rfl, rfl, rfl, rfl⟩
+        have b := ih h2
+        exact ⟨b.1.trans a.1, b.2.1.trans a.2.1, b.2.2.1.trans a.2.2.1, b.2.2.2.trans a.2.2.2⟩
+    have e1 := this hr
+    exact h.frame e1.1 e1.2.1 e1.2.2.1 e1.2.2.2
+  | ref a h' => obtain ⟨_, _, _, _, rfl⟩ := ref_ok hs; exact h.frame rfl rfl rfl rfl
+  | unref a h' =>
+    obtain ⟨_, _, _, hu⟩ := unref_ok hs
+    obtain ⟨_, ⟨_, rfl⟩ | ⟨_, rfl⟩⟩ := unrefCore_ok hu <;> exact h.frame rfl rfl rfl rfl
+  | join a h' => obtain ⟨_, _, _, _, ⟨_, rfl⟩ | ⟨_, _, _, rfl⟩⟩ := join_ok hs <;> exact h.frame rfl rfl rfl rfl
+  | current t' =>
+    obtain ⟨n0, _, _, hp0, rfl⟩ := current_ok hs
+    have e1 : (currentCore s t' n0).1.nkey = s.nkey ∧ (currentCore s t' n0).1.nN = s.nN ∧
+        (currentCore s t' n0).1.keyDelLog = s.keyDelLog ∧ (currentCore s t' n0).1.blockFreeLog = s.blockFreeLog := by
+      unfold currentCore; split <;> exact ⟨rfl, rfl, rfl, rfl⟩
+    exact h.frame e1.1 e1.2.1 e1.2.2.1 e1.2.2.2
+  | localNew a nf => obtain ⟨_, rfl⟩ := localNew_ok hs; exact h.frame rfl rfl rfl rfl
+  | localFree a k =>
+    obtain ⟨_, _, _, hwf, ⟨_, rfl⟩ | ⟨n, hpub, rfl⟩⟩ := localFree_ok hs
+    · exact h.frame rfl rfl rfl rfl
+    · have hP := hk.kP k n hpub
+      have := hP.2.2 hwf
+      simp only [localFreeDeletesKey, localFreeFreesBlock, if_true]
+      exact (h.release hP.1 this.1 this.2 (relN (s.nkey n)) (by simp [relN, localFreeDeletesKey]) (by simp [relN, localFreeFreesBlock])).frame rfl rfl rfl rfl
+  | keyCreate t' k =>
+    obtain ⟨_, _, _, _, _, rfl⟩ := keyCreate_ok hs
+    refine ⟨h.dN, h.bN, ?_, ?_⟩
+    · intro m; simp only
+      by_cases e : m = s.nN
+      · subst e; simp; intro hm; have := ((h.dL _).mp hm).1; omega
+      · rw [upd_ne _ _ e, h.dL m]; constructor
+        · rintro ⟨a, b⟩; exact ⟨by omega, b⟩
+        · rintro ⟨a, b⟩; exact ⟨by omega, b⟩
+    · intro m; simp only
+      by_cases e : m = s.nN
+      · subst e; simp; intro hm; have := ((h.bL _).mp hm).1; omega
+      · rw [upd_ne _ _ e, h.bL m]; constructor
+        · rintro ⟨a, b⟩; exact ⟨by omega, b⟩
+        · rintro ⟨a, b⟩; exact ⟨by omega, b⟩
+  | keyCas t' k =>
+    obtain ⟨n, hpd, _, ⟨_, rfl⟩ | ⟨_, rfl⟩⟩ := keyCas_ok hs
+    · exact h.frame rfl rfl rfl rfl
+    · have hE := hk.kE t' k n hpd
+      simp only [casLoserDeletesKey, casLoserFreesBlock, if_true]
+      exact (h.release hE.1 hE.2.2.1 hE.2.2.2.1 { s.nkey n with live := !casLoserDeletesKey, blockFreed := casLoserFreesBlock } (by simp [casLoserDeletesKey]) (by simp [casLoserFreesBlock])).frame rfl rfl rfl rfl
+  | setLocal t' k v => obtain ⟨n, _, _, _, _, _, rfl⟩ := setLocal_ok hs; exact h.frame rfl rfl rfl rfl
+  | replaceLocal t' k v => obtain ⟨n, _, _, _, _, _, rfl⟩ := replaceLocal_ok hs; exact h.frame rfl rfl rfl rfl
+  | getLocal t' k => obtain ⟨n, _, _, _, _, _, rfl⟩ := getLocal_ok hs; exact h.frame rfl rfl rfl rfl
+
+theorem Reach.ninv {s : State} (h : Reach s) : NInv s := by
+  induction h with
+  | init => exact NInv.init
+  | step e hr hs ih => exact ih.step hr.inv.1 hs
 
 end PV.UThread
